@@ -828,6 +828,11 @@ def probe_packets(doc):
 # ---------------------------------------------------------------------------------------------
 
 _EXCLUDE_TOP = {"ns", "xtce_ns_prefix", "xtce_schema_uri"}
+# what a definition is made of today. A top-level attribute that is neither listed here nor in _EXCLUDE_TOP and holds a
+# plain scalar (a new piece of bookkeeping, e.g. a schema version derived from the namespace URI) is compared only with
+# the same bytes loaded first (top=False), not across spellings: whether it may depend on the spelling is not known
+_KNOWN_TOP = {"parameter_types", "parameters", "containers", "root_container_name", "space_system_name",
+              "validation_status", "xtce_version", "date"}
 
 
 def fingerprint(obj, top=True, _depth=0, _memo=None):
@@ -842,6 +847,9 @@ def fingerprint(obj, top=True, _depth=0, _memo=None):
         return (type(obj).__name__, obj)
     if isinstance(obj, float):
         return ("float", repr(obj))
+    import enum as _enum
+    if isinstance(obj, _enum.Enum):
+        return ("enum", type(obj).__name__, obj.name)
     key = id(obj)
     if key in _memo:
         return ("<ref>", type(obj).__name__, _memo[key])
@@ -894,13 +902,33 @@ def fingerprint(obj, top=True, _depth=0, _memo=None):
             val = getattr(obj, kname)
         except AttributeError:
             continue
+        if top and kname not in _KNOWN_TOP and (val is None or isinstance(val, (bool, int, float, str, bytes))):
+            continue
         items.append((kname, fingerprint(val, False, _depth + 1, _memo)))
     return (type(obj).__name__,) + tuple(items)
 
 
+def plain_value(v):
+    """The built-in value behind a parsed value (IntParameter -> int ...), independent of how the class prints itself."""
+    try:
+        if isinstance(v, bool):
+            return bool(v)
+        if isinstance(v, int):
+            return int.__int__(v)
+        if isinstance(v, float):
+            return repr(float.__float__(v))
+        if isinstance(v, str):
+            return str.__add__(v, "")
+        if isinstance(v, (bytes, bytearray)):
+            return bytes(v)
+    except Exception:      # noqa: BLE001
+        pass
+    return None
+
+
 def canon_value(v):
     rv = getattr(v, "raw_value", None)
-    return (type(v).__name__, repr(v), type(rv).__name__, repr(rv))
+    return (type(v).__name__, repr(v), type(rv).__name__, repr(rv), plain_value(v))
 
 
 def canon_item(item):
